@@ -189,9 +189,36 @@ Definition has_cmp_op (code : string) : bool :=
   str_contains code "==" || str_contains code "!=" || str_contains code "<=" ||
   str_contains code ">=" || str_contains code "::".
 
+(* _split_format_spec: index of the first colon outside brackets and string literals
+   (quote: the open quote character, if any; depth may go negative as in the Python code) *)
+Fixpoint spec_colon_from (s : string) (quote : option ascii) (depth : Z) (i : nat) : option nat :=
+  match s with
+  | EmptyString => None
+  | String ch r =>
+      match quote with
+      | Some q =>
+          if ascii_eqb ch "\"%char then
+            match r with
+            | String _ r2 => spec_colon_from r2 quote depth (S (S i))
+            | EmptyString => None
+            end
+          else if ascii_eqb ch q then spec_colon_from r None depth (S i)
+          else spec_colon_from r quote depth (S i)
+      | None =>
+          if ascii_eqb ch """"%char || ascii_eqb ch "'"%char then spec_colon_from r (Some ch) depth (S i)
+          else if ascii_eqb ch "("%char || ascii_eqb ch "["%char || ascii_eqb ch "{"%char
+               then spec_colon_from r None (depth + 1)%Z (S i)
+          else if ascii_eqb ch ")"%char || ascii_eqb ch "]"%char || ascii_eqb ch "}"%char
+               then spec_colon_from r None (depth - 1)%Z (S i)
+          else if ascii_eqb ch ":"%char && Z.eqb depth 0 then Some i
+          else spec_colon_from r None depth (S i)
+      end
+  end.
+Definition spec_colon (code : string) : option nat := spec_colon_from code None 0%Z 0.
+
 (* returns the text for an {expr} token; failures become the inline error marker *)
 Definition render_expr (ctx : env) (code : string) : string :=
-  match (if has_cmp_op code then None else find_char code ":"%char) with
+  match spec_colon code with
   | Some i =>
       let e := strip (take i code) in
       let spec := strip (drop (S i) code) in
